@@ -22,7 +22,24 @@ impl Property for C16 {
     const ID: &'static str = "C16";
 
     fn rule() -> String {
-        "proptest-generated insertion sequences mixing hints Yes/No/Detect, all compressions incl. None and all levels, with and without the dedup adder, duplicates inserted with different hints. Oracle (independent decoder on the bytes of the created pack): a content inserted with No, or into a pack created with Compression::None, lies in a cluster whose compression nibble is 0 and whose bytes are found verbatim in the file at cluster data start + blob offset; a content inserted with Yes into a compressing pack lies in a cluster whose nibble is the pack's algorithm and whose payload decompresses with that algorithm's own library to data holding the content at its blob range; Detect only round-trips. Dedup adder: two insertions return one address iff their bytes are equal, and the pack holds one content per distinct byte string. Non-trivial = both hints Yes and No present in a compressing pack, or a duplicate pair; distinct by (compression, dedup, hint pattern, lengths).".into()
+        "proptest-generated insertion sequences mixing hints Yes/No/Detect, all compressions incl. None and all levels, with and without the dedup adder, duplicates inserted with different hints. Oracle (independent decoder on the bytes of the created pack): a content inserted with No, or into a pack created with Compression::None, lies in a cluster whose compression nibble is 0 and whose bytes are found verbatim in the file at cluster data start + blob offset; a content inserted with Yes into a compressing pack lies in a cluster whose nibble is the pack's algorithm and whose payload decompresses with that algorithm's own library to data holding the content at its blob range; Detect only round-trips. Dedup adder: two insertions return one address iff their bytes are equal, and the pack holds one content per distinct byte string. Non-trivial = both hints Yes and No present in a compressing pack, or a duplicate pair; distinct by (compression, dedup, hint pattern, lengths). 435 fixed cases: tiny compressed clusters (1..=96 zero bytes; 32 incompressible bytes + 0..=48 zeros) per algorithm, among which the compressed stream is sometimes exactly as long as the data.".into()
+    }
+
+    /// tiny compressed clusters whose compressed stream may be exactly as long as their data
+    /// (stored size == data size is a coincidence, not a sign of an uncompressed cluster): runs of
+    /// 1..=96 zero bytes, and 32 incompressible bytes followed by 0..=48 zeros, per algorithm
+    fn fixed_cases(_tier: Tier) -> Vec<Case> {
+        let c = |len: u32, ent: Entropy, hint: Hint, seed: u32| ContentSpec { len, ent, seed, hint, source: Source::Mem, dup_of: None, flip: None };
+        let mut v = vec![];
+        for comp in [Comp::Lz4(3), Comp::Lzma(2), Comp::Zstd(3)] {
+            for n in 1..=96u32 {
+                v.push(Case { comp, dedup: false, contents: vec![c(n, Entropy::Zero, Hint::Yes, n), c(7, Entropy::Text, Hint::No, n + 1)] });
+            }
+            for k in 0..=48u32 {
+                v.push(Case { comp, dedup: false, contents: vec![c(32, Entropy::High, Hint::Yes, k + 500), c(k, Entropy::Zero, Hint::Yes, k), c(5, Entropy::Text, Hint::No, k + 1)] });
+            }
+        }
+        v
     }
 
     fn cases(tier: Tier) -> u32 {
